@@ -166,6 +166,7 @@ def main(argv=None):
     reported = []
     seen_kinds = {}
     seen_cases = set()
+    unconfirmed = []
     os.makedirs(os.path.join(H.VERIF_ROOT, "replays", prop), exist_ok=True)
     for rec in unlisted:
         if seen_kinds.get(rec["kind"], 0) >= 2 or len(reported) >= 8:
@@ -186,15 +187,22 @@ def main(argv=None):
         if r.returncode == 1:
             reported.append((path, rec))
         elif r.returncode == 0:
-            print(f"HARNESS-ERROR property={prop}: violation did not reproduce on replay: {path}", file=sys.stderr)
-            print(r.stdout[-2000:], r.stderr[-2000:], file=sys.stderr)
-            _write_evidence(mod, args.tier, seed, agg, time.time() - t0, n_unlisted_total, extra_cov)
-            return 2
+            # seen inside the exploration but not in isolation from a fresh process: never reported as a violation
+            unconfirmed.append(path)
+            seen_kinds[rec["kind"]] -= 1
+            if len(unconfirmed) > 12:
+                break
         else:
             print(f"HARNESS-ERROR property={prop}: replay crashed for {path}\n{r.stderr[-2000:]}", file=sys.stderr)
             return 2
 
     wall = time.time() - t0
+    if unlisted and not reported:
+        # violations were observed but none reproduced when replayed alone: the check (or the code) depends on something the
+        # replay does not capture - a harness error, never a verdict
+        _write_evidence(mod, args.tier, seed, agg, wall, max(n_unlisted_total, 0), extra_cov)
+        print(f"HARNESS-ERROR property={prop}: {len(unlisted)} violation(s) observed, none reproduced on replay, e.g. {unconfirmed[:2]}", file=sys.stderr)
+        return 2
     _write_evidence(mod, args.tier, seed, agg, wall, max(n_unlisted_total, 0), extra_cov)
 
     for kid, (kf, rec) in sorted(known_hits.items()):
